@@ -263,6 +263,7 @@ class Program:
                 elif k == "header":
                     self.header = r
         self.crate = self.header["crate"]
+        self.ext = []
         self._callers = None
         self._impl_index = None
 
@@ -353,9 +354,38 @@ class Program:
                 return self.fns.get(it["def"])
         return None
 
-    def variant_by_discr(self, adt_path, value):
+    STD_VARIANTS = {"std::option::Option": ["None", "Some"], "std::result::Result": ["Ok", "Err"],
+                    "std::ops::ControlFlow": ["Continue", "Break"],
+                    "std::cmp::Ordering": {-1: "Less", 0: "Equal", 1: "Greater"}}
+
+    def find_adt(self, adt_path):
+        """ADT record by full path, looking into the other workspace crates for foreign paths"""
         a = self.adts.get(adt_path)
+        if a is not None:
+            return a
+        if "::" in adt_path:
+            crate, rest = adt_path.split("::", 1)
+            for q in getattr(self, "ext", []):
+                if q.crate != crate:
+                    continue
+                if rest in q.adts:
+                    return q.adts[rest]
+                # public re-exports print under their visible path: fall back to the unique
+                # type of that name in the crate
+                last = adt_path.rsplit("::", 1)[-1]
+                hits = [a for pth, a in q.adts.items() if pth.rsplit("::", 1)[-1] == last]
+                if len(hits) == 1:
+                    return hits[0]
+        return None
+
+    def variant_by_discr(self, adt_path, value):
+        a = self.find_adt(adt_path)
         if a is None:
+            sv = self.STD_VARIANTS.get(adt_path)
+            if isinstance(sv, list) and 0 <= value < len(sv):
+                return sv[value]
+            if isinstance(sv, dict):
+                return sv.get(value)
             return None
         for v in a["variants"]:
             if v["discr"] == value:
